@@ -324,11 +324,13 @@ pub struct CandleSpec {
 	pub price: StreamSpec,
 	pub volume: StreamSpec,
 	pub shape: Vec<u16>,
+	/// candles on a price plateau are exactly flat (open = high = low = close)
+	pub flat_exact: bool,
 }
 
 pub fn candle_spec_strategy() -> impl Strategy<Value = CandleSpec> {
-	(spec_strategy(10), spec_strategy(6), proptest::collection::vec(any::<u16>(), 4..40))
-		.prop_map(|(price, volume, shape)| CandleSpec { price, volume, shape })
+	(spec_strategy(10), spec_strategy(6), proptest::collection::vec(any::<u16>(), 4..40), any::<bool>())
+		.prop_map(|(price, volume, shape, flat_exact)| CandleSpec { price, volume, shape, flat_exact })
 }
 
 /// Valid candles by construction: low <= open, close <= high, positive prices, volume >= 0.
@@ -363,6 +365,7 @@ pub fn build_candles(spec: &CandleSpec, n: usize, max_len: usize) -> Vec<C5> {
 			2 => ((r >> 40) % 900) as f64 * 1e-3,
 			_ => 0.0,
 		};
+		let (o, up, dn) = if spec.flat_exact && i > 0 && c == prev_close { (c, 0.0, 0.0) } else { (o, up, dn) };
 		let mut h = vt(o.max(c) * (1.0 + up));
 		let mut l = vt(o.min(c) * (1.0 - dn));
 		// rounding to the value type must not break the ordering
@@ -377,6 +380,20 @@ pub fn build_candles(spec: &CandleSpec, n: usize, max_len: usize) -> Vec<C5> {
 		prev_close = c;
 	}
 	out
+}
+
+/// volatile -> exactly flat (at least two windows long) -> volatile, with zero-volume stretches
+pub fn regime_spec_strategy() -> impl Strategy<Value = CandleSpec> {
+	let seg = |kind: u8, len_sel: u16| (any::<u16>(), any::<u16>(), proptest::collection::vec(any::<u16>(), 1..24)).prop_map(move |(a, b, noise)| SegSpec { kind, len_sel, a, b, noise });
+	let vol_kind = prop_oneof![Just(0u8), Just(1u8), Just(2u8), Just(4u8), Just(6u8), Just(11u8)];
+	let price = (-3i8..=5, any::<u16>(), vol_kind.clone().prop_flat_map(move |k| seg(k, 7)), seg(3, 7), vol_kind.clone().prop_flat_map(move |k| seg(k, 5)), seg(3, 6), vol_kind.prop_flat_map(move |k| seg(k, 7)))
+		.prop_map(|(base_exp, base_mant, a, b, c, d, e)| StreamSpec { base_exp, base_mant, negative: false, segs: vec![a, b, c, d, e] });
+	let volume = (-2i8..=6, any::<u16>(), seg(0, 7), seg(9, 7), seg(2, 5), seg(9, 6), seg(0, 7)).prop_map(|(base_exp, base_mant, a, b, c, d, e)| StreamSpec { base_exp, base_mant, negative: false, segs: vec![a, b, c, d, e] });
+	(price, volume, proptest::collection::vec(any::<u16>(), 4..40), prop_oneof![3 => Just(true), 1 => Just(false)]).prop_map(|(price, volume, shape, flat_exact)| CandleSpec { price, volume, shape, flat_exact })
+}
+
+pub fn regime_candle_stream_n(n: u32, max_len: usize) -> SBoxedStrategy<CandleStream> {
+	regime_spec_strategy().prop_map(move |spec| CandleStream { n, cs: build_candles(&spec, n as usize, max_len) }).sboxed()
 }
 
 #[derive(Serialize, Deserialize, Clone, Debug)]
